@@ -57,11 +57,87 @@ _real = {
     "os_fchmod": getattr(os, "fchmod", None), "os_truncate": os.truncate, "os_link": os.link,
 }
 _real["os_listxattr"] = getattr(os, "listxattr", None)
-import mmap as _mmap_mod
-_real["mmap"] = _mmap_mod.mmap
-FD_BASE = 1 << 20   # simulated descriptors live far above anything the real OS hands out
 
 _FS = None  # the installed SimFS (module global; one simulated disk per process at a time)
+
+
+class FdBytes:
+    """The bytes of one simulated inode, held in an anonymous memory file (memfd) so that *real* descriptors
+    exist for it: C-level I/O that libraries do behind Python's back (ndarray.tofile, numpy.memmap / mmap,
+    os.sendfile in shutil) works natively, while everything that goes through Python still passes the seam.
+    Behaves like the bytearray it replaces (len, slicing, slice assignment, del x[n:], extend)."""
+
+    __slots__ = ("fd",)
+
+    def __init__(self):
+        self.fd = os.memfd_create("simfs-inode")
+
+    def __len__(self):
+        return _real["os_fstat"](self.fd).st_size
+
+    def __bytes__(self):
+        n = len(self)
+        return os.pread(self.fd, n, 0) if n else b""
+
+    def __getitem__(self, sl):
+        if not isinstance(sl, slice):
+            raise TypeError("FdBytes supports slices only")
+        start, stop, step = sl.indices(len(self))
+        if step != 1:
+            return bytes(self)[sl]
+        return os.pread(self.fd, max(0, stop - start), start) if stop > start else b""
+
+    def __setitem__(self, sl, data):
+        data = bytes(data)
+        n = len(self)
+        start, stop, step = sl.indices(n)
+        if step != 1:
+            raise ValueError("FdBytes: extended slices are not supported")
+        if stop - start == len(data) or stop >= n:
+            # in-place overwrite, or replacing the tail (possibly growing the file)
+            if stop >= n and start + len(data) < n:
+                _real["os_ftruncate"](self.fd, start + len(data))
+            pos = 0
+            while pos < len(data):
+                pos += os.pwrite(self.fd, data[pos:], start + pos)
+            return
+        rest = os.pread(self.fd, n - stop, stop)
+        _real["os_ftruncate"](self.fd, start)
+        blob = data + rest
+        pos = 0
+        while pos < len(blob):
+            pos += os.pwrite(self.fd, blob[pos:], start + pos)
+
+    def __delitem__(self, sl):
+        n = len(self)
+        start, stop, step = sl.indices(n)
+        if step != 1 or stop < n:
+            keep = bytes(self)
+            keep = keep[:start] + keep[stop:]
+            _real["os_ftruncate"](self.fd, 0)
+            if keep:
+                os.pwrite(self.fd, keep, 0)
+            return
+        _real["os_ftruncate"](self.fd, start)
+
+    def extend(self, data):
+        data = bytes(data)
+        if data:
+            os.pwrite(self.fd, data, len(self))
+
+    def close(self):
+        if self.fd is not None:
+            try:
+                _real["os_close"](self.fd)
+            except OSError:
+                pass
+            self.fd = None
+
+    def __del__(self):           # the inode goes when its last name and its last open handle are gone
+        try:
+            self.close()
+        except Exception:
+            pass
 
 
 class Node:
@@ -69,7 +145,7 @@ class Node:
 
     def __init__(self, kind, ino):
         self.kind = kind  # 'f' | 'd'
-        self.data = bytearray() if kind == "f" else None
+        self.data = FdBytes() if kind == "f" else None
         self.ino = ino
         self.mtime = 0
 
@@ -83,11 +159,32 @@ class SimRaw(io.RawIOBase):
         self._r = readable
         self._w = writable
         self._append = append
-        self.pos = len(node.data) if append else 0
+        self.fd = None
+        self._pos = len(node.data) if append else 0
         self.dead = False
         self.owner = fs.session
         self.name = path
         self.mode = mode
+
+    # the stream position; once a real descriptor has been handed out its offset is the single source of truth,
+    # so that I/O done on it outside Python (ndarray.tofile) and I/O done through this object stay consistent
+    @property
+    def pos(self):
+        if self.fd is not None:
+            try:
+                return _real["os_lseek"](self.fd, 0, 1)
+            except OSError:
+                pass
+        return self._pos
+
+    @pos.setter
+    def pos(self, v):
+        self._pos = v
+        if self.fd is not None:
+            try:
+                _real["os_lseek"](self.fd, v, 0)
+            except OSError:
+                pass
 
     # capabilities -------------------------------------------------------
     def readable(self):
@@ -100,17 +197,24 @@ class SimRaw(io.RawIOBase):
         return True
 
     def fileno(self):
-        """a simulated descriptor (far above real ones) understood by the patched os.fsync / os.write / os.fstat ...;
-        handing it to a real system call fails with EBADF, which is the honest answer"""
+        """a real descriptor on the inode's memory file; the patched os.write / os.read / os.fsync / os.fstat route it
+        back through this object (and the fault seam), C code that uses it directly reaches the same bytes"""
         if self.closed:
             raise ValueError("I/O operation on closed file")
-        fd = getattr(self, "fd", None)
-        if fd is None:
-            fd = self.fs._next_fd
-            self.fs._next_fd += 1
-            self.fs.fds[fd] = self
-            self.fd = fd
-        return fd
+        return self.realfd()
+
+    def realfd(self):
+        """a real descriptor with its own file offset on the inode's memory file (opened lazily); its offset is
+        synchronised with this stream's position whenever it is handed out"""
+        if self.fd is None:
+            flags = os.O_RDWR if self._w else os.O_RDONLY
+            if self._append:
+                flags |= os.O_APPEND
+            pos = self._pos
+            self.fd = _real["os_open"]("/proc/self/fd/%d" % self.node.data.fd, flags)
+            self.fs.fds[self.fd] = self
+            self.pos = pos
+        return self.fd
 
     def isatty(self):
         return False
@@ -218,9 +322,13 @@ class SimRaw(io.RawIOBase):
                 self.fs._prim("close", self.path, None, handle=self)
         finally:
             self.fs.open_handles.discard(self)
-            fd = getattr(self, "fd", None)
-            if fd is not None:
-                self.fs.fds.pop(fd, None)
+            if self.fd is not None:
+                self.fs.fds.pop(self.fd, None)
+                try:
+                    _real["os_close"](self.fd)
+                except OSError:
+                    pass
+                self.fd = None
             super().close()
 
 
@@ -298,8 +406,25 @@ class SimFS:
         self.prims_total = 0
         self.max_open = 0
         self.foreign_touched = set()
-        self.fds = {}
-        self._next_fd = FD_BASE
+        self.fds = {}             # real descriptor -> SimRaw
+
+    def destroy(self):
+        """end of a run: release every descriptor the simulated disk holds"""
+        for h in list(self.open_handles):
+            h.dead = True
+            try:
+                h.close()
+            except Exception:
+                pass
+        for raw in list(self.fds.values()):
+            try:
+                raw.close()
+            except Exception:
+                pass
+        for n in self.nodes.values():
+            if n.kind == "f" and n.data is not None:
+                n.data.close()
+        self.nodes.clear()
 
     # ----- low-level descriptor API (os.open / os.fdopen / os.write / os.fsync ...) -----
     def os_open(self, path, flags):
@@ -337,11 +462,7 @@ class SimFS:
         raw = SimRaw(self, path, node, reading, writing, bool(flags & os.O_APPEND), "r+b" if (reading and writing) else ("wb" if writing else "rb"))
         self.open_handles.add(raw)
         self.max_open = max(self.max_open, len(self.open_handles))
-        fd = self._next_fd
-        self._next_fd += 1
-        self.fds[fd] = raw
-        raw.fd = fd
-        return fd
+        return raw.realfd()
 
     def fd_raw(self, fd):
         raw = self.fds.get(fd)
@@ -887,6 +1008,8 @@ def _p_access(path, mode, *a, **kw):
             if p not in fs.nodes:
                 return False
             if mode & os.W_OK and os.path.dirname(p) in fs.readonly_dirs:
+                fs.fired["readonly_dir"] += 1      # the refusal reaches the caller through this answer too
+                fs._note_fault("readonly_dir")
                 return False
             return True
     return _real["access"](path, mode, *a, **kw)
@@ -906,7 +1029,7 @@ def _p_os_open(path, flags, mode=0o777, *a, **kw):
 
 def _fd(fd):
     fs = _FS
-    return fs.fds.get(fd) if fs is not None and isinstance(fd, int) and fd >= FD_BASE else None
+    return fs.fds.get(fd) if fs is not None and isinstance(fd, int) else None
 
 
 def _p_os_close(fd):
@@ -1050,51 +1173,6 @@ def _p_os_listxattr(path=None, *a, **kw):
     return _real["os_listxattr"](path, *a, **kw)
 
 
-class _SimMmap(bytearray):
-    """what mmap.mmap(fd_of_a_SimFS_file, ...) returns: a buffer over a copy of the file region; flush() writes it
-    back when the mapping is writable.  Enough for numpy.memmap / emfile(mmap=True) / mrcfile.mmap."""
-
-    def _bind(self, raw, offset, writable):
-        self._raw, self._off, self._w, self.closed = raw, offset, writable, False
-        return self
-
-    def flush(self, *a):
-        if self._w and not self._raw.dead:
-            nd = self._raw.node.data
-            nd[self._off:self._off + len(self)] = bytes(self)
-        return None
-
-    def close(self):
-        self.closed = True
-
-    def size(self):
-        return len(self._raw.node.data)
-
-    def __enter__(self):
-        return self
-
-    def __exit__(self, *a):
-        self.close()
-
-
-def _p_mmap(fileno, length, *a, **kw):
-    raw = _fd(fileno)
-    if raw is None:
-        return _real["mmap"](fileno, length, *a, **kw)
-    offset = kw.get("offset", 0)
-    access = kw.get("access", None)
-    if access is None and len(a) >= 3:
-        access = a[2]
-    writable = access in (_mmap_mod.ACCESS_WRITE, _mmap_mod.ACCESS_DEFAULT, None) and raw._w
-    data = raw.node.data
-    if length == 0:
-        length = len(data) - offset
-    if offset + length > len(data):
-        raise ValueError("mmap length is greater than file size")
-    raw.fs._prim("read", raw.path, length, handle=raw)
-    return _SimMmap(data[offset:offset + length])._bind(raw, offset, writable)
-
-
 def is_sim_stream(f):
     return isinstance(f, SimRaw) or isinstance(getattr(f, "raw", None), SimRaw)
 
@@ -1173,7 +1251,6 @@ def install_patches():
         os.fchmod = _p_os_fchmod
     if _real["os_listxattr"] is not None:
         os.listxattr = _p_os_listxattr
-    _mmap_mod.mmap = _p_mmap
     _np.fromfile = _p_fromfile
     try:  # numpy caches io.open for np.loadtxt / np.savetxt
         import numpy.lib._datasource as ds
